@@ -20,8 +20,8 @@ EXTENDS BrokerAbs, Json, IOUtils, TLCExt
 
 Traces == JsonDeserialize(IOEnv.TRACE_FILE)
 
-VARIABLES tid, l, calls, chk, devs, taint, rdl, rdls, dead, unsure, enqAt, ovt
-tvars == <<tid, l, calls, chk, devs, taint, rdl, rdls, dead, unsure, enqAt, ovt>>
+VARIABLES tid, l, calls, chk, devs, taint, rdl, rdls, dead, unsure, enqAt, ovt, mvAt
+tvars == <<tid, l, calls, chk, devs, taint, rdl, rdls, dead, unsure, enqAt, ovt, mvAt>>
 allvars == <<vars, tvars>>
 
 Ev == Traces[tid][l]
@@ -29,21 +29,21 @@ Is(k) == l <= Len(Traces[tid]) /\ Ev.e = k
 Step == l' = l + 1 /\ UNCHANGED tid
 Vec(v) == [n |-> v[1], d |-> v[2], x |-> v[3], p |-> v[4]]
 MetaOf(m) == [q |-> m.q, topic |-> m.topic, prio |-> m.prio, due |-> m.due, exp |-> m.exp, dl |-> m.dl, ver |-> m.ver, dues |-> m.dues]
-NoCall == [op |-> "none", c |-> 0, i |-> 0, m |-> Meta0, done |-> FALSE, t0 |-> 0, h0 |-> FALSE]
+NoCall == [op |-> "none", c |-> 0, i |-> 0, m |-> Meta0, done |-> FALSE, t0 |-> 0, h0 |-> FALSE, l0 |-> 0]
 Call(k) == IF k \in DOMAIN calls THEN calls[k] ELSE NoCall
 Done(k) == calls' = [calls EXCEPT ![k].done = TRUE]
 
 TInit == /\ Init
-         /\ tid \in 1..Len(Traces) /\ l = 1 /\ calls = <<>> /\ chk = {} /\ devs = {} /\ taint = {} /\ rdl = [i \in Ids |-> 0] /\ rdls = [i \in Ids |-> 0] /\ dead = {} /\ unsure = {} /\ enqAt = [i \in Ids |-> 0] /\ ovt = [i \in Ids |-> 0]
+         /\ tid \in 1..Len(Traces) /\ l = 1 /\ calls = <<>> /\ chk = {} /\ devs = {} /\ taint = {} /\ rdl = [i \in Ids |-> 0] /\ rdls = [i \in Ids |-> 0] /\ dead = {} /\ unsure = {} /\ enqAt = [i \in Ids |-> 0] /\ ovt = [i \in Ids |-> 0] /\ mvAt = [i \in Ids |-> 0]
          /\ TLCSet(tid, 1)
 
 THdr == /\ Is("hdr") /\ Step
         /\ chk' = ToSet(Ev.chk) /\ devs' = ToSet(Ev.devs)
-        /\ UNCHANGED <<vars, calls, taint, rdl, rdls, dead, unsure, enqAt, ovt>>
+        /\ UNCHANGED <<vars, calls, taint, rdl, rdls, dead, unsure, enqAt, ovt, mvAt>>
 
 TCons == /\ Is("cons") /\ Step
          /\ cons' = [cons EXCEPT ![Ev.c] = [on |-> FALSE, q |-> Ev.q, cat |-> Ev.cat, topics |-> ToSet(Ev.topics)]]
-         /\ UNCHANGED <<now, st, loc, meta, holder, origin, deliv, ret, norder, transit, pend, calls, chk, devs, taint, rdl, rdls, dead, unsure, enqAt, ovt>>
+         /\ UNCHANGED <<now, st, loc, meta, holder, origin, deliv, ret, norder, transit, pend, calls, chk, devs, taint, rdl, rdls, dead, unsure, enqAt, ovt, mvAt>>
 
 (* C05 bounded latency: a consume() call of a normal consumer that has been waiting since before *)
 (* message i fell due is not still empty-handed after i's deadline (dl = due + latency bound),    *)
@@ -66,14 +66,17 @@ Starved(t, headOfLine) ==
 TTime == /\ Is("time") /\ Step
          /\ Ev.now >= now /\ now' = Ev.now
          /\ ("latency" \in chk => (~Starved(Ev.now, FALSE) \/ (Dev("rabbit_head_of_line") /\ ~Starved(Ev.now, TRUE))))
-         /\ UNCHANGED <<st, loc, meta, holder, origin, deliv, ret, cons, norder, transit, pend, calls, chk, devs, taint, rdl, rdls, dead, unsure, enqAt, ovt>>
+         /\ UNCHANGED <<st, loc, meta, holder, origin, deliv, ret, cons, norder, transit, pend, calls, chk, devs, taint, rdl, rdls, dead, unsure, enqAt, ovt, mvAt>>
 
 TBegin == /\ Is("begin") /\ Step
-          /\ calls' = (Ev.k :> [op |-> Ev.op, c |-> Ev.c, i |-> Ev.i, m |-> MetaOf(Ev.m), done |-> FALSE, t0 |-> now,
+          /\ calls' = (Ev.k :> [op |-> Ev.op, c |-> Ev.c, i |-> Ev.i, m |-> MetaOf(Ev.m), done |-> FALSE, t0 |-> now, l0 |-> l,
                                 h0 |-> (Ev.i # 0 /\ Ev.c # 0 /\ Held(Ev.c, Ev.i))]) @@ calls
           /\ IF Ev.op = "start" THEN Start(Ev.c)
              ELSE UNCHANGED vars
-          /\ UNCHANGED <<chk, devs, taint, rdl, rdls, dead, unsure, enqAt, ovt>>
+          \* the fate of a message that is in flight while its queue is flushed / deleted is broker-specific (it goes with
+          \* the queue now, or later when its holder settles it, or stays): it is followed, but not judged, from here on
+          /\ taint' = IF Ev.op = "flush" THEN taint \cup InFlight(Ev.m.q) ELSE taint
+          /\ UNCHANGED <<chk, devs, rdl, rdls, dead, unsure, enqAt, ovt, mvAt>>
 
 -----------------------------------------------------------------------------
 (* Deviation actions: behaviours of the pinned code that the contract forbids.  They are        *)
@@ -203,6 +206,8 @@ TMove ==
                 \/ /\ \E pl \in {"n", "d"} : RequeueInsert(i, pl)
                    /\ Done(k)
              /\ taint' = taint
+          \* queue_flush / queue_delete: messages of that queue (and only of that queue) vanish
+          \/ /\ cl.op = "flush" /\ Drop(i, cl.m.q) /\ UNCHANGED <<calls, taint>>
           \/ /\ cl.op = "finish"
              /\ \E pl \in Cats : ReturnHeld(cl.c, i, pl)
              /\ UNCHANGED <<calls, taint>>
@@ -234,6 +239,7 @@ TMove ==
     /\ UNCHANGED <<chk, devs, dead, unsure>>
     /\ enqAt' = IF st[Ev.i] = "new" THEN [enqAt EXCEPT ![Ev.i] = now] ELSE enqAt
     /\ ovt' = OvtAfter(Ev.i)
+    /\ mvAt' = [mvAt EXCEPT ![Ev.i] = l]
     \* (the Redis fetch-window defect, once listed as a known finding, also explains unbounded overtaking)
     /\ (("starve" \in chk /\ ~Dev("redis_lifo_window")) => \A j \in Ids : ovt'[j] <= StarveBound)
 
@@ -267,23 +273,27 @@ TEnd ==
                        /\ st' = [st EXCEPT ![cl.i] = "acked"] /\ holder' = [holder EXCEPT ![cl.i] = NoC]
                        /\ UNCHANGED <<now, loc, meta, origin, deliv, ret, cons, norder, pend, calls>>
                        /\ taint' = taint \cup {cl.i}
+            [] cl.op = "flush" ->
+                 \* a completed flush leaves no waiting message of its queue behind that nobody has touched since it began
+                 /\ (Ev.st = "ok" => \A j \in Ids : ~(Droppable(j, cl.m.q) /\ loc[j].p = 0 /\ mvAt[j] < cl.l0 /\ j \notin taint))
+                 /\ UNCHANGED vars /\ UNCHANGED calls /\ taint' = taint \cup InFlight(cl.m.q)
             [] cl.op = "finish" ->
                  /\ IF Ev.st = "ok" THEN Stop(cl.c) ELSE UNCHANGED vars
                  /\ Done(k) /\ taint' = taint
             [] OTHER -> UNCHANGED vars /\ UNCHANGED <<calls, taint>>
     \* a start() that was interrupted may or may not have taken effect: that consumer is not known to be listening
     /\ unsure' = IF (Call(Ev.k).op = "start" /\ Ev.st # "ok") THEN unsure \cup {Call(Ev.k).c} ELSE unsure
-    /\ UNCHANGED <<chk, devs, rdl, rdls, dead, enqAt, ovt>>
+    /\ UNCHANGED <<chk, devs, rdl, rdls, dead, enqAt, ovt, mvAt>>
 
 (* full observation of the broker: the contract state must agree with it for every id *)
 TObs == /\ Is("obs") /\ Step
         /\ \A j \in Ids : loc[j] = (IF j <= Len(Ev.v) THEN Vec(Ev.v[j]) ELSE Zero)
-        /\ UNCHANGED <<vars, calls, chk, devs, taint, rdl, rdls, dead, unsure, enqAt, ovt>>
+        /\ UNCHANGED <<vars, calls, chk, devs, taint, rdl, rdls, dead, unsure, enqAt, ovt, mvAt>>
 
 (* the process owning these consumers died without any cleanup *)
 TCrash == /\ Is("crash") /\ Step
           /\ dead' = dead \cup ToSet(Ev.cs)
-          /\ UNCHANGED <<vars, calls, chk, devs, taint, rdl, rdls, unsure, enqAt, ovt>>
+          /\ UNCHANGED <<vars, calls, chk, devs, taint, rdl, rdls, unsure, enqAt, ovt, mvAt>>
 
 TraceConsCfgs == {[c \in Consumers |-> [on |-> FALSE, q |-> 0, cat |-> "n", topics |-> {}]]}
 TNext == THdr \/ TCrash \/ TObs \/ TCons \/ TTime \/ TBegin \/ TMove \/ TEnd
